@@ -48,5 +48,18 @@ func runC02(tier string, seed uint64, o *Out) error {
 		o.Line("C02 T %d %d %d %d # %s # %s", c.size, c.ooo, c.late, harnessBase, opsString(ops), obs)
 		o.Count(fmt.Sprintf("tumbling late=%d", c.late/size))
 	}
+	// sliding windows: overlapping fired windows, late rows inside several of them
+	pairs := [][2]int64{{10, 5}, {10, 3}, {10, 10}, {5, 10}, {1000, 250}}
+	for i := 0; i < ncases/2; i++ {
+		p := pairs[rng.Intn(len(pairs))]
+		c := swCfg{size: p[0], slide: p[1]}
+		c.ooo = []int64{0, c.size / 2, 2 * c.size}[rng.Intn(3)]
+		c.late = []int64{0, c.slide, c.size, 3 * c.size}[rng.Intn(4)]
+		n := 5 + rng.Intn(36)
+		ops := genTimeOps(rng, c.slide, c.ooo, n, nil, rng.Intn(3) == 0)
+		if err := slidingLine(o, "C02", c, ops, fmt.Sprintf("sliding late=%d", c.late/c.slide)); err != nil {
+			return err
+		}
+	}
 	return nil
 }
